@@ -113,8 +113,7 @@ def run(pid, tier):
     out.assumptions = TRUSTED + [
         'C11 PARTIAL: proved (unbounded) is the pair store BinaryRel::{insert, contains} only; the transitive-closure computation, delta/total bookkeeping, per-key merge, reverse maps '
         'and every index view of the binary and ternary trrel providers are checked by a BOUNDED native enumeration (<= 4 / 5 events over 4 items, resp. 2 keys x 3 items)',
-        'the oracle of the bounded companion is the transitive closure WITHOUT reflexive pairs implied only by cycles (the provider is built anti-reflexive); the difference to the '
-        'property statement is the separate obligation *_cycles_imply_reflexive_pairs, listed as a known finding',
+        'the oracle of the bounded companion is the full per-key transitive closure, including the pairs (x, x) that cycles imply',
         'the generated code around the provider is not covered',
     ]
     if tier == 'thorough' and v.get('path') and v['status'] == 'ok':
